@@ -4,6 +4,7 @@ package sim
 // roles, conditions and annotation settings.
 
 import (
+	metav1 "k8s.io/apimachinery/pkg/apis/meta/v1"
 	"encoding/json"
 	"math/rand/v2"
 	"time"
@@ -25,6 +26,7 @@ type c14Case struct {
 	RS     map[string]c14RS  `json:"rs"`     // by template letter
 	Ann    map[string]string `json:"ann,omitempty"`
 	Syncs  int               `json:"syncs"`
+	Held   string            `json:"held,omitempty"` // letter of a replica set that is Terminating, held by a finalizer
 }
 
 var c14Reasons = []string{"CrashLoopBackOff", "ImagePullBackOff", "ErrImagePull", "CreateContainerConfigError", "StartSlow", "Unknown", ""}
@@ -72,6 +74,9 @@ func genC14Inject(r *rand.Rand, tier string, idx int) *World {
 	if chance(r, 0.15) {
 		cs.Ann[pre+"rollout-frozen"] = pick(r, "true", "false")
 	}
+	if chance(r, 0.25) {
+		cs.Held = pick(r, "A", "B", "C")
+	}
 	b, _ := json.Marshal(cs)
 	w.Extra["case"] = string(b)
 	w.Cfg = Config{Kubelet: true, MapOrder: pick(r, 0, 1, 2)}
@@ -112,6 +117,11 @@ func bodyC14Inject(s *Sim) {
 			cd := edsv1ERSCond(string(edsv1.ConditionTypeCanaryFailed), c.Failed, now.Add(-20*time.Second), now.Add(-20*time.Second))
 			cd.Reason = c.FailedReason
 			r.Status.Conditions = append(r.Status.Conditions, cd)
+		}
+		if l == cs.Held {
+			dt := metav1.NewTime(now)
+			r.DeletionTimestamp = &dt
+			r.Finalizers = append(r.Finalizers, "example.com/hold")
 		}
 		s.Store.ForceUpdate(r)
 	}
